@@ -433,6 +433,12 @@ def _make_clock_classes(world):
     class SimDateTime(_real_datetime):
         @classmethod
         def utcnow(cls):
+            if sys.version_info >= (3, 12):
+                # faithful to the stdlib: CPython 3.12 deprecates utcnow() (matters under -W error)
+                import warnings
+                warnings.warn("datetime.datetime.utcnow() is deprecated and scheduled for removal in a future "
+                              "version. Use timezone-aware objects to represent datetimes in UTC: "
+                              "datetime.datetime.now(datetime.UTC).", DeprecationWarning, stacklevel=2)
             t = world.clock.read()
             world.stats["clock_reads"] += 1
             if world.log is not None:
